@@ -376,6 +376,11 @@ func HandleCreate(deps ServerDeps, conn net.Conn, tag string, parts []string, st
 				break
 			}
 
+			// INBOX exists under every spelling (it is case-insensitive): never create "Inbox" next to it
+			if strings.EqualFold(currentPath, "INBOX") {
+				continue
+			}
+
 			// Check if this intermediate mailbox exists
 			intermediateExists, checkErr := db.MailboxExistsPerUser(userDB, state.UserID, currentPath)
 			if checkErr == nil && !intermediateExists {
